@@ -9,7 +9,9 @@ CFG = {
         "Leptos.Router.C14_partition_nested_fallback_witness",
         "Leptos.Router.C14_params_are_segments",
         "Leptos.Router.C14_params_are_segments_opt",
+        "Leptos.Router.C14_params_are_segments_noslash",
         "Leptos.Router.C14_segHead_is_first_token",
+        "Leptos.Router.C14_static_is_whole_segment",
         "Leptos.Router.C14_expand_optionals",
         "Leptos.Router.C14_holds_none",
         "Leptos.Router.C14_holds_not_panic",
@@ -28,6 +30,7 @@ CFG = {
         "Leptos.Router.C14_build_then_match",
         "Leptos.Router.C14_match_iff_flat_partial",
         "Leptos.Router.C14_match_iff_flat_partial_holds",
+        "Leptos.Router.C14_simple_aligned_agrees",
         "Leptos.Router.pass_simple",
         "Leptos.Router.leaf_simple",
         "Leptos.Router.patternTokens_simple",
@@ -66,14 +69,14 @@ CFG = {
                  "StaticPath::into_paths (one value per param)", "integrations/axum to_axum_path (joining rule only)"],
     "assumptions": ["request paths start with '/'", "well-formed route definitions: wildcard only as last segment of a leaf, static texts non-empty and '/'-free "
                     "(or with one leading '/', or a whole route \"\" / \"/\"), base \"\" or \"/x[/y]\"",
-                    "C14_match_iff_flat_partial is proved for single leaf routes of plain static/param segments; the general partial statement over arbitrary optional-free "
+                    "C14_match_iff_flat_partial is proved for single leaf routes of plain static/param segments (every request path, no SegmentAligned hypothesis since fix-c14-1/2); the general partial statement over arbitrary optional-free "
                     "route trees (C14_match_iff_flat_partial_general) is OPEN: evaluated on every generated case by the correspondence run, not proved"],
     "manifest": {
         "category": "proof",
         "text": "Lean 4 theorems over all paths/segment trees: matched++remaining=path for every segment kind, nested tuples and (optional-free-parent) nested routes; "
-                "param values are path segments; expand_optionals worklist = 2^k spec; build-then-match; the full 'match iff flat table' statement is refuted by "
-                "kernel-checked witnesses (static prefix /foobar, '/'-parent, char-boundary panic, five optional-param defects) = known findings; partial theorem for "
-                "flat static/param routes under SegmentAligned; tied to the code by exhaustive-path differential runs of the real leptos_router against the compiled model",
+                "param values are path segments; static segments match whole path segments (after fix-c14-1); expand_optionals worklist = 2^k spec; build-then-match; "
+                "'match iff flat table' proved for flat static/param routes on every path; the full statement over all route trees is refuted by kernel-checked witnesses "
+                "('/'-parent, five optional-param defects) = known findings; F-C14-1/3/4/8 repaired by fix: commits, old behaviour kept as regression witnesses; tied to the code by exhaustive-path differential runs of the real leptos_router against the compiled model",
         "design_ref": "DESIGN.md §7 C14",
         "note": "model hand-written, faithfulness checked by correspondence (0 disagreements on >600k (route set, path) pairs per quick run); flat-table semantics per to_axum_path, matchit not executed",
         "technique": "Lean 4 proof (mutual structural induction over segment trees / route trees) + refutation witnesses + exhaustive small-scope differential correspondence",
